@@ -247,12 +247,32 @@ def ground_obligations() -> List[Obligation]:
     from peptacular.chem.chem_util import parse_chem_formula
     from .. import oracles as O
     out = []
-    for db, names, tol in ((UNIMOD_DB, ["Acetyl", "Oxidation", "Phospho", "Carbamidomethyl", "Methyl", "Amidated", "Formyl"], 1e-3),
+    # one representative Unimod entry per *composition token* of the source table (Hex, HexNAc, NeuAc, Ac, Me, dHex, Pent, Kdn,
+    # 13C, ...): the tokens are read from unimod.obo at run time; the loader's token->composition expansion is what is checked
+    import os, re
+    import peptacular
+    obo = os.path.join(os.path.dirname(peptacular.__file__), "data", "unimod.obo")
+    token_rep: Dict[str, str] = {}
+    name = None
+    for line in open(obo, encoding="utf-8", errors="replace"):
+        if line.startswith("name: "):
+            name = line[6:].strip()
+        elif line.startswith("xref: delta_composition") and name:
+            comp_txt = line.split('"')[1] if '"' in line else ""
+            for tok in re.findall(r"([A-Za-z0-9]+)(?:\(-?\d+\))?", comp_txt):
+                if tok not in token_rep and UNIMOD_DB.contains_name(name):
+                    token_rep[tok] = name
+    token_names = sorted(set(token_rep.values()))
+    for db, names, tol in ((UNIMOD_DB, sorted(set(["Acetyl", "Oxidation", "Phospho", "Carbamidomethyl", "Methyl", "Amidated", "Formyl"] + token_names)), 1e-3),
                            (MONOSACCHARIDES_DB, ["Hex", "HexNAc", "Fuc", "Neu5Ac", "Pen", "HexN"], 1e-3)):
         for n in names:
             e = db.get_entry_by_name(n)
+            if e is None or e.composition is None or e.mono_mass is None:
+                continue
             comp = parse_chem_formula(e.composition)
-            ref = sum(O.mono(el) * cnt for el, cnt in comp.items())
+            if any(el not in O.ISOTOPES and not el[0].isdigit() for el in comp):
+                continue        # element outside the independent table (metals etc.)
+            ref = sum((O.isotope(el) if el[0].isdigit() else O.mono(el)) * cnt for el, cnt in comp.items())
             t0 = time.time()
             claim = z3.And(rat(e.mono_mass) - rat(ref) <= rat(tol), rat(ref) - rat(e.mono_mass) <= rat(tol))
             r, dt, _ = prove(claim)
